@@ -149,14 +149,16 @@ UName(n) == IF CHECKNAMES THEN Plain(n) ELSE n
 (* add_functions: public functions of a base, renamed <field>_<name> when  *)
 (* the name is taken, forwarding to the base field                         *)
 RECURSIVE AddFuncs(_, _, _)
-AddFuncs(acc, bname, fs) ==   \* acc = [used, out]
-  IF fs = <<>> THEN acc
+AddFuncs(acc, bname, fs) ==   \* acc = [used, out, st, why]
+  IF fs = <<>> \/ acc.st # "ok" THEN acc
   ELSE LET f == Head(fs)
        IN IF f.vis # "pub" \/ (CHECKFWD /\ IsInternalFn(f)) THEN AddFuncs(acc, bname, Tail(fs))
-          ELSE LET nm == IF UName(f.name) \in acc.used THEN bname \o "_" \o Plain(f.name) ELSE f.name
+          ELSE LET taken == UName(f.name) \in acc.used
+                   nm == IF taken THEN bname \o "_" \o Plain(f.name) ELSE f.name
                    g == [f EXCEPT !.name = nm, !.body = BodyField(bname, f.name)]
-               IN AddFuncs([used |-> acc.used \cup {UName(nm)}, out |-> Append(acc.out, g)],
-                           bname, Tail(fs))
+               IN IF CHECKRENAME /\ taken /\ UName(nm) \in acc.used
+                  THEN [acc EXCEPT !.st = "fail", !.why = "rename-collision"]
+                  ELSE AddFuncs([acc EXCEPT !.used = @ \cup {UName(nm)}, !.out = Append(@, g)], bname, Tail(fs))
 
 RECURSIVE InjectBases(_, _, _, _)
 InjectBases(reg, bases, i, acc) ==   \* acc = [st, used, out, why]
@@ -164,11 +166,10 @@ InjectBases(reg, bases, i, acc) ==   \* acc = [st, used, out, why]
   ELSE LET bl == BaseLookup(reg, Head(bases))
        IN IF bl.st = "fail" THEN [acc EXCEPT !.st = "fail", !.why = bl.why]
           ELSE IF bl.st = "none" THEN InjectBases(reg, Tail(bases), i + 1, acc)
-          ELSE LET a1 == AddFuncs([used |-> acc.used, out |-> acc.out], bl.name, bl.res.afuncs)
+          ELSE LET a1 == AddFuncs(acc, bl.name, bl.res.afuncs)
                    a2 == IF i > 0 /\ bl.res.vft.has
                          THEN AddFuncs(a1, bl.name, bl.res.vft.funcs) ELSE a1
-               IN InjectBases(reg, Tail(bases), i + 1,
-                              [acc EXCEPT !.used = a2.used, !.out = a2.out])
+               IN InjectBases(reg, Tail(bases), i + 1, a2)
 
 RECURSIVE AddImpl(_, _, _, _)
 AddImpl(reg, scope, fs, acc) ==
